@@ -5,6 +5,8 @@ from ..nativeio import differential
 from ..contracts import thermo
 
 ID = "C04"
+NATIVE_BOUNDED = (40, 300)        # (quick, thorough) native corpus next to the proof: the symbolic world gives the two components distinct concrete names, so
+                                  # mixtures whose components share a label (and rounding) are reached only by this labelled bounded stand-in
 MIN_OBLIGATIONS = 30
 TIMEOUT = dict(quick=240, thorough=900)
 
